@@ -7,6 +7,7 @@ from ..core import (AnalysisError, dotted, unparse, calls_in, call_name,
 from ..flow import guards_at, flatten_guards
 from ..callgraph import CallGraph
 from ..mutate import Mutant, in_func
+from .. import guardspec
 
 ID = 'C12'
 EXPLANATION = (
@@ -712,12 +713,77 @@ def rule_r5(prog, res):
     res.floor('R5', 'memo tables and context classes examined', n, 6)
 
 
+# ------------------------------------------------------------------- R6
+def rule_r6(prog, res):
+    res.rule('R6', 'the build lock is taken unconditionally (a timed or '
+             'non-blocking acquire whose result is ignored is no lock); '
+             'transports keep no mutable state on the class')
+    n = 0
+    w = prog.cls('spyne.server.wsgi:WsgiApplication')
+    for f in w.methods.values():
+        for c in calls_in(f.node):
+            if call_name(c) != 'acquire' or 'mtx' not in unparse(
+                    c.func).lower() and 'lock' not in unparse(c.func).lower():
+                continue
+            n += 1
+            timed = bool(c.args) or bool(c.keywords)
+            p_ = parent(c)
+            tested = not isinstance(p_, ast.Expr)
+            ok = not timed or tested
+            where = '%s:%d' % (f.module.relpath, c.lineno)
+            res.ob('R6', where, '%s: %s%s' % (f.qualname, unparse(c)[:60],
+                                              ' (result used)' if tested
+                                              else ''),
+                   'ok' if ok else 'VIOLATED')
+            if not ok:
+                res.finding('R6', '%s|acquire-unchecked|%s' % (
+                    f.qualname, unparse(c)[:40]), where,
+                    '%s takes the build lock with %s and ignores the result: '
+                    'when the wait times out the thread enters the critical '
+                    'section without the lock, builds the document '
+                    'concurrently on the same Wsdl11 state and releases a '
+                    'lock it does not hold' % (f.qualname, unparse(c)[:50]))
+    # `with lock:` counts as an unconditional acquire
+    for f in w.methods.values():
+        for node in walk_no_defs(f.node):
+            if isinstance(node, ast.With) and any(
+                    'mtx' in unparse(i.context_expr).lower() or
+                    'lock' in unparse(i.context_expr).lower()
+                    for i in node.items):
+                n += 1
+    res.floor('R6', 'acquisitions of the build lock', n, 1)
+    # class-level mutable containers on transports
+    sb = prog.cls('spyne.server._base:ServerBase')
+    k = 0
+    for c in [sb] + list(prog.subclasses(sb, strict=True)):
+        if '.test.' in c.module.name or 'twisted' in c.module.name or \
+                'django' in c.module.name or 'pyramid' in c.module.name:
+            continue
+        k += 1
+        bad = [a for a in c.node.body if isinstance(a, ast.Assign) and
+               _fresh_container(a.value)]
+        res.ob('R6', '%s:%d' % (c.module.relpath, c.node.lineno),
+               '%s: %d mutable container(s) at class level' % (c.name,
+                                                               len(bad)),
+               'VIOLATED' if bad else 'ok')
+        for a in bad:
+            res.finding('R6', '%s|class-level-state|%s' % (
+                c.name, unparse(a.targets[0])),
+                '%s:%d' % (c.module.relpath, a.lineno),
+                '%s.%s is a mutable container on the class: every transport '
+                'instance of the process adds to the same object, so '
+                'patterns/state registered for one application are seen by '
+                'the others' % (c.name, unparse(a.targets[0])))
+    res.floor('R6', 'transport classes examined', k, 3)
+
+
 def run(prog, res, tier):
     res.run_rule(rule_r1, prog, res)
     res.run_rule(rule_r2, prog, res, tier)
     res.run_rule(rule_r3, prog, res)
     res.run_rule(rule_r4, prog, res)
     res.run_rule(rule_r5, prog, res)
+    res.run_rule(rule_r6, prog, res)
 
 
 _W = 'spyne/server/wsgi.py'
@@ -726,6 +792,16 @@ _P = 'spyne/protocol/_base.py'
 _M = 'spyne/util/memo.py'
 
 MUTANTS = [
+    Mutant('build-lock-with-timeout', 'R6', 'fire', _W,
+           in_func('WsgiApplication.handle_wsdl_request',
+                   "self._mtx_build_interface_document.acquire()",
+                   "self._mtx_build_interface_document.acquire(timeout=30)"),
+           'acquire-unchecked'),
+    Mutant('http-patterns-on-class', 'R6', 'fire', 'spyne/server/http.py',
+           lambda src: src.replace("    SLASHPER = '/%s'\n",
+                                   "    SLASHPER = '/%s'\n"
+                                   "    _http_patterns = set()\n", 1),
+           'class-level-state'),
     Mutant('attrcache-on-class', 'R5', 'fire', _P,
            in_func('ProtocolMixin.__init__',
                    "        self._attrcache = WeakKeyDictionary()\n",
